@@ -81,7 +81,7 @@ where
     }
     let handle = std::thread::Builder::new()
         .name("lsim-run".into())
-        .stack_size(8 << 20)
+        .stack_size(1 << 20)
         .spawn(move || {
             let body = Mutex::new(Some(body));
             let mut cfg = Config::new();
